@@ -75,6 +75,9 @@ def _fixture_c():
         a1.sources.append(s1)
         tag.sources.append(s2)
         grp.sources.append(s)
+        grp.sources.append(s1)                         # parent AND child in one list
+        mt2 = blk.create_multi_tag("mt2", "t", positions=a1)
+        mt2.extents = a1                               # one array in two roles of one entity
         blk.metadata = sec
         a1.metadata = sub
         s1.metadata = subsub
